@@ -156,6 +156,10 @@ def df_len(it, v):
     return t
 
 
+def df_last_fn(ctx):
+    return ctx.uf("df_last", ctx.sort("DF"), ctx.sort("Row"))
+
+
 def _make_symbolic2(models, it, reg, ty, name, fresh):
     ctx, run = it.ctx, it.run
     if ty in ("DF", "Clf"):
@@ -268,7 +272,10 @@ def _install_pandas():
         f = it.ctx.uf("df_concat", it.ctx.sort("DF"), it.ctx.sort("DF"), it.ctx.sort("DF"))
         r = SOpaque("DF", f(parts[0].t, parts[1].t))
         it.ctx.fact(df_len(it, r) == df_len(it, parts[0]) + df_len(it, parts[1]), key=("concat-len", r.t.sexpr()))
-        self.note(it, "model:pd.concat (row count adds up; contents opaque)")
+        # the last row of a concatenation is the last row of its second part (when that has rows)
+        dl = df_last_fn(it.ctx)
+        it.ctx.fact(z3.Implies(df_len(it, parts[1]) >= 1, dl(r.t) == dl(parts[1].t)), key=("concat-last", r.t.sexpr()))
+        self.note(it, "model:pd.concat (row count adds up, last row = last row of the second part; other contents opaque)")
         return r
 
     def accuracy(self, it, args, kw, fr, node):
@@ -565,8 +572,16 @@ def _spec_df_concat(self, e, fr):
     f = self.ctx.uf("df_concat", self.ctx.sort("DF"), self.ctx.sort("DF"), self.ctx.sort("DF"))
     r = SOpaque("DF", f(a.t, b.t))
     self.ctx.fact(df_len(self, r) == df_len(self, a) + df_len(self, b), key=("concat-len", r.t.sexpr()))
+    dl = df_last_fn(self.ctx)
+    self.ctx.fact(z3.Implies(df_len(self, b) >= 1, dl(r.t) == dl(b.t)), key=("concat-last", r.t.sexpr()))
     return r
 
 
+def _spec_df_last(self, e, fr):
+    v = self.ev(e.args[0], fr)
+    return SOpaque("Row", df_last_fn(self.ctx)(v.t))
+
+
+X.Interp.spec_df_last = _spec_df_last
 X.Interp.spec_df_of = _spec_df_of
 X.Interp.spec_df_concat = _spec_df_concat
